@@ -12,6 +12,7 @@ import (
 	"encoding/json"
 	"fmt"
 	"math"
+	"math/big"
 	"os"
 	"sort"
 	"strconv"
@@ -38,6 +39,13 @@ type Cond struct {
 	Flip  bool    `json:"flip,omitempty"`  // written as  lit op' col
 	Paren bool    `json:"paren,omitempty"` // wrapped in parentheses
 	Enc   *int64  `json:"enc,omitempty"`   // order-preserving encoding of Lit (output only)
+	// LitTy: the literal is written with ANOTHER numeric type than the column's: "int" = an integer literal compared with a
+	// float key column (f = 1), "float" = a number literal compared with an integer key column (k < 2.5). Lit is then in the
+	// literal's own textual form. EncCur = encoding of the value today's genRPNElementByVal stores (the literal's bits read
+	// as a value of the column's type); Enc = encoding of the literal converted exactly (nil when it is not a value of the
+	// column's type, e.g. 2.5 for an integer column)
+	LitTy  string `json:"litty,omitempty"`
+	EncCur *int64 `json:"enccur,omitempty"`
 }
 
 type CaseIn struct {
@@ -209,6 +217,25 @@ func padVal(ty string) tval {
 		return tval{b: false}
 	}
 	panic("type")
+}
+
+// cmpMixed: exact numeric comparison of a column value (type ty: float or int) with a literal of the other numeric type
+func cmpMixed(ty string, x, lit tval) int {
+	if ty == "float" { // lit is an integer
+		return big.NewFloat(x.f).Cmp(new(big.Float).SetInt64(lit.i))
+	}
+	return new(big.Float).SetInt64(x.i).Cmp(big.NewFloat(lit.f)) // ty int, lit is a float
+}
+
+// litAs: the literal of an atom with LitTy, as a value of the column's type: today's reading (the bits of the literal read as
+// the column's type) and the exact conversion (ok = false when the literal is not a value of the column's type)
+func litAs(ty string, c *Cond) (cur tval, exact tval, ok bool) {
+	lit := parseVal(c.LitTy, &c.Lit)
+	if ty == "float" {
+		return tval{f: math.Float64frombits(uint64(lit.i))}, tval{f: float64(lit.i)}, lit.i > -(1<<53) && lit.i < (1<<53)
+	}
+	v := int64(lit.f)
+	return tval{i: int64(math.Float64bits(lit.f))}, tval{i: v}, math.Abs(lit.f) < (1<<53) && float64(v) == lit.f
 }
 
 func fieldType(ty string) int {
@@ -458,7 +485,12 @@ func (w *world) expr(c *Cond) influxql.Expr {
 	default:
 		ty := w.colType(c.Col)
 		vr := &influxql.VarRef{Val: colName(c.Col), Type: varType(ty)}
-		lit := litExpr(ty, c.Lit)
+		var lit influxql.Expr
+		if c.LitTy != "" {
+			lit = litExpr(c.LitTy, c.Lit)
+		} else {
+			lit = litExpr(ty, c.Lit)
+		}
 		if c.Flip && !isStrOp(c.Op) {
 			e = &influxql.BinaryExpr{Op: opTok[flipOp[c.Op]], LHS: lit, RHS: vr}
 		} else {
@@ -514,7 +546,12 @@ func (w *world) evalMode(c *Cond, row []tval, asEq bool) bool {
 	case "like", "matchop": // lib/binaryfilterfunc has no entry for these operators: operationMap yields 0 = GT
 		return x.s > c.Lit
 	}
-	k := cmpVal(ty, x, parseVal(ty, &c.Lit))
+	var k int
+	if c.LitTy != "" {
+		k = cmpMixed(ty, x, parseVal(c.LitTy, &c.Lit))
+	} else {
+		k = cmpVal(ty, x, parseVal(ty, &c.Lit))
+	}
 	switch c.Op {
 	case "=":
 		return k == 0
@@ -635,6 +672,16 @@ func runCase(id int, in *CaseIn) *CaseOut {
 		out.EffCond = eff
 	}
 	collectLits(eff, func(a *Cond) {
+		if a.Col >= 0 && a.Op != "in" && a.LitTy != "" {
+			cur, exact, ok := litAs(in.Types[a.Col], a)
+			if !(in.Types[a.Col] == "float" && math.IsNaN(cur.f)) {
+				encs[a.Col].add(cur)
+			}
+			if ok {
+				encs[a.Col].add(exact)
+			}
+			return
+		}
 		if a.Col >= 0 && a.Op != "in" {
 			encs[a.Col].add(parseVal(in.Types[a.Col], &a.Lit))
 		}
@@ -654,7 +701,15 @@ func runCase(id int, in *CaseIn) *CaseOut {
 		if a.Op == "in" {
 			return
 		}
-		if a.Col >= 0 {
+		if a.Col >= 0 && a.LitTy != "" {
+			cur, exact, ok := litAs(in.Types[a.Col], a)
+			if !(in.Types[a.Col] == "float" && math.IsNaN(cur.f)) {
+				a.EncCur = encs[a.Col].enc(cur)
+			}
+			if ok {
+				a.Enc = encs[a.Col].enc(exact)
+			}
+		} else if a.Col >= 0 {
 			a.Enc = encs[a.Col].enc(parseVal(in.Types[a.Col], &a.Lit))
 		} else {
 			v := parseVal("int", &a.Lit)
@@ -1010,6 +1065,9 @@ var strDom = []string{"", "A", "B", "C", "D", "E", "Da", "a", "ab", "b", "\x00",
 var timeDom = []int64{0, 1, 2, 5, 1000, 1001, 1 << 20, 1<<40 - 1, 1 << 40, 7, 8, 9}
 
 var textMode bool
+
+// litMode: comparisons of a float key column with integer literals / of an integer key column with number literals
+var litMode bool
 var textDom = []string{"hello", "hello world", "world", "GET /a", "a b c", "10.0.0.5", "10.0.1.7", "192.168.1.1", "", "zeta", "hello,world", "world hello"}
 var textLits = []string{"hello", "world", "a", "GET", "b c", "zeta", "10.0.0.0/24", "10.0.0.0/8", "192.168.1.1/32", "hello world", "10.0.0.5"}
 
@@ -1190,6 +1248,19 @@ func genCase(r *gen.Rand) *CaseIn {
 			}
 			return &Cond{Op: op, Col: col, Lit: lit, Paren: r.Chance(1, 8)}
 		}
+		if litMode && col >= 0 && (in.Types[col] == "float" || in.Types[col] == "int") && r.Chance(3, 5) {
+			c := &Cond{Op: gen.Pick(r, ops), Col: col, Flip: r.Chance(1, 6)}
+			if in.Types[col] == "float" {
+				c.LitTy = "int"
+				// non-negative only: the bits of a negative int64 are a NaN when read as a float (today's reading), and a NaN
+				// bound answers "may be true, may be false" for every range - a corner the model does not express
+				c.Lit = strconv.FormatInt(gen.Pick(r, []int64{0, 1, 2, 3, 4, 7, 1, 2}), 10)
+			} else {
+				c.LitTy = "float"
+				c.Lit = strconv.FormatFloat(gen.Pick(r, []float64{-2.5, -1, 0, 0.5, 1, 1.5, 2, 3, 4.5, 7}), 'g', -1, 64)
+			}
+			return c
+		}
 		return &Cond{Op: gen.Pick(r, ops), Col: col, Lit: pickLit(col), Flip: r.Chance(1, 6), Paren: r.Chance(1, 8)}
 	}
 	in.Cond = genCond(r.Intn(4))
@@ -1333,6 +1404,17 @@ func main() {
 			}
 		}
 		textMode = false
+		if i%10 == 3 && in.Tag == "" {
+			litMode = true
+			lin := genCase(r)
+			litMode = false
+			hasLit := false
+			collectLits(lin.Cond, func(a *Cond) { hasLit = hasLit || a.LitTy != "" })
+			if hasLit {
+				in = lin
+				in.Tag = "litmix"
+			}
+		}
 		if i%25 == 24 && in.Tag == "" {
 			in = genSpecial(r, in)
 		}
